@@ -170,6 +170,13 @@ def run(ctx):
         ctx.check(ty2.startswith("&") and not ty2.startswith("&mut") and not bad, "R06-other-untouched", key, m,
                   "`other` is a shared reference and %s has no interior mutability" % adt.split("::")[-1], "`other` may be modified (%s, %s)" % (ty2, bad))
 
+    union_transfer_rules(ctx)
+
+
+def union_transfer_rules(ctx):
+    """R06-cuckoo-transfer, R06-quotient-transfer, R06-quotient-fifo (also run by C01: an element of `other` that is not carried
+    over, or carried over under the wrong quotient/bucket, is a false negative after a successful union)"""
+    prog = ctx.prog
     # ---- R06-cuckoo-transfer -------------------------------------------------------------------
     cu = ctx.anchor("<%s as filters::Filter[T]>::union" % CF)
     if cu is not None:
@@ -215,6 +222,30 @@ def run(ctx):
             elif okc:
                 okc = False
                 why = "bucket index %s is neither a loop-carried counter nor slot / bucketsize" % fmt(i1)
+        if okc and len(calls) == 1:
+            # ... and EVERY occupied slot gets there: from the edge on which `f != 0` holds, the next visit of the loop head (or the
+            # exhaustion exit) cannot be reached around the insert_internal call (a `continue` for "already present" drops a copy)
+            from ..guards import reach_without
+            bi = calls[0][0]
+            hs = [hh for hh in cu.loop_heads() if bi in cu.natural_loop(hh)]
+            h0 = hs[0] if hs else None
+            nz_succ = None
+            if h0 is not None:
+                for b in sorted(cu.natural_loop(h0)):
+                    t_ = cu.blocks[b].term
+                    if t_.k != "switch":
+                        continue
+                    c_ = tb.operand(t_.discr, b, len(cu.blocks[b].stmts))
+                    if c_ in (mk("Ne", f_t, const(0)), mk("Eq", f_t, const(0))):
+                        arms_ = {int(v): tg for v, tg in t_.j["arms"]}
+                        zero_means = (c_[1] == "Eq")          # the switch value 1 means f == 0 ?
+                        nz_succ = (arms_.get(0) if zero_means else t_.j["otherwise"]) if 0 in arms_ else None
+                        if nz_succ is None and set(arms_) == {1}:
+                            nz_succ = t_.j["otherwise"] if zero_means else arms_[1]
+            if nz_succ is None:
+                okc, why = False, "cannot find the `f != 0` test of the transfer loop"
+            elif nz_succ != bi and reach_without(cu, nz_succ, h0, bi):
+                okc, why = False, "an occupied slot can be skipped: the loop continues without calling insert_internal on some path after `f != 0`"
         ctx.check(okc, "R06-cuckoo-transfer", cu.key, cu, "every non-zero slot f of other.table is re-inserted with i1 = slot/bucketsize (counter) and i2 = i1 ^ hash(f)",
                   "cuckoo union does not transfer every occupied slot with its own bucket: %s" % why)
 
